@@ -3,6 +3,10 @@ CFG = {
     "lean_theorems": "LeptosModel.Theorems.C02",
     "lean_exe": "lm_c02",
     "theorems": [
+        "Leptos.Reactive.C02_effects_converge_readonly",
+        "Leptos.Reactive.C02_effects_converge_nowrite",
+        "Leptos.Reactive.C02_effects_converge_stmt_false",
+        "Leptos.Reactive.C02_self_feedback_witness",
         "Leptos.Reactive.C02_lost_update_witness",
         "Leptos.Reactive.C02_effects_converge_full_old_false",
     ],
@@ -18,14 +22,16 @@ CFG = {
     "assumptions": ["Effect::new and RenderEffect::new; watch / new_isomorphic / ImmediateEffect share EffectInner but are not separately driven", "single-threaded executor"],
     "manifest": {
         "category": "proof",
-        "text": "The convergence statement was FALSE of the code as found (kernel-checked witness C02_lost_update_witness: x=s, m=0*x, effect reads m then x; after "
-                "s:=2 the effect never re-ran; replayed on the real Effect) and the defect was REPAIRED by /repo commit 4084efd (EffectInner::update_if_necessary now walks "
-                "its sources under untrack and folds the dirty flag in). The witness is kept as a regression theorem about the pre-repair model (runOld); the statement for "
-                "the repaired scheduler (C02_effects_converge_stmt) is OPEN: no counterexample in 63 000 generated programs x histories x schedules, proof in progress. "
-                "The executable Lean model (Effect::new, RenderEffect, pause/resume/dispose, wake order, effects writing signals) is tied to reactive_graph by differential "
-                "correspondence under arbitrary polling orders with oracles for staleness at idle, glitches, runs after disposal / while paused and wake order.",
+        "text": "PROVED: C02_effects_converge_readonly - for every well-formed program (tracked reads), every history of writes/reads/polls in ANY polling order, at every idle "
+                "point every effect whose own body does not write a signal has last run against the current from-scratch values of everything it read (other effects may write; "
+                "invariant InvR + effect lemmas, Proofs/ReactiveConv.lean). For effects that write, the statement is REFUTED by a kernel-checked witness confirmed on the real "
+                "Effect (F-C02-2, a feedback loop: known finding). The lost-update defect of the code as found (F-C02-1) was REPAIRED by /repo commit 4084efd; its witness stays as a "
+                "regression theorem about the pre-repair model (runOld). No-glitch during runs follows from C01_read_eq_scratch (every read inside a run returns the from-scratch value). "
+                "Lifecycle clauses (disposed / paused effects never run, wake order) are covered by the executable model + correspondence oracles, not by theorems. The model "
+                "(Effect::new, RenderEffect, pause/resume/dispose at effect and root level, wake order, effects writing signals) is tied to reactive_graph by differential "
+                "correspondence under arbitrary polling orders.",
         "design_ref": "DESIGN.md §7 C02",
-        "note": "hand-written model validated by correspondence; convergence theorem for the repaired code open (proof in progress)",
-        "technique": "Lean 4 regression witness + executable model + differential correspondence over schedules (convergence proof in progress)",
+        "note": "hand-written model validated by correspondence; convergence proved for read-only effects; lifecycle and wake-order clauses by correspondence only",
+        "technique": "Lean 4 proof (invariant over histories and schedules) + refutation/regression witnesses + differential correspondence",
     },
 }
